@@ -534,6 +534,8 @@ PostMenu == BomMenu \cup {Sel(<<P(Col("input"), "")>>, NoE, TRUE, NoLimit, "none
 Lines3 == {KV(A, IntV(1)), KV(B, IntV(2)), KV(Null, IntV(0)), KV(A, Null), Garbage}
 LinesJ == {KV(A, IntV(1)), KV(B, IntV(2)), KV(Null, IntV(1))}
 JoinSets == {<<KV(A, IntV(5)), KV(A, IntV(5)), KV(B, IntV(5))>>, <<>>, <<KV(A, IntV(5))>>, <<KV(A, IntV(0)), KV(A, IntV(5))>>, <<KV(B, IntV(5)), KV(A, IntV(5)), KV(A, IntV(6))>>, <<KV(A, IntV(5)), KV(A, IntV(0)), KV(Null, IntV(9))>>, <<KV(B, IntV(1)), Garbage, KV(A, IntV(3))>>}
+\* joined files with empty lines and lines that match nothing (rows of the joined table when its key column has a DEFAULT: table variant ukdef)
+JoinSetsEmpty == {<<KV(A, IntV(5)), Empty, KV(B, IntV(2)), Garbage>>, <<Empty>>, <<KV(Null, IntV(4)), KV(A, Null)>>, <<Empty, Empty, KV(B, IntV(1))>>}
 NoIntr == {[at |-> "none", n |-> 0]}
 LineIntr == {[at |-> "line", n |-> n] : n \in 0..4}
 PrintIntr == {[at |-> "print", n |-> n] : n \in 1..3}
